@@ -2739,6 +2739,158 @@ def merge_adjacent_result(body, facts):
     return count
 
 
+def eliminate_static_memos(body, f, facts, global_users):
+    """N6c: a one-entry memo kept in a namespace-scope (static / thread_local) object that only this function touches
+
+        if (!g.valid || g.k1 != a || g.k2 != b) { [g.valid = false;] g.k1 = a; g.k2 = b; g.val = E; g.valid = true; }
+        ... g.val ...
+
+    is E at its uses when E is computed from the key expressions (and constants) alone: the entry is then a function of its
+    key whatever happened in earlier calls.  A key that leaves out something E reads keeps the memo in place (and visible
+    to the rules).  Returns the number of memos removed."""
+    if not isinstance(body, dict) or body.get("k") != "Block":
+        return 0
+
+    def gpath(e):
+        u = ir.unwrap_all_casts(e)
+        p_ = path(u) if isinstance(u, dict) else None
+        if p_ and len(p_) == 2 and p_[0].startswith("g:"):
+            return p_
+        return None
+
+    def disj(e):
+        u = unwrap(e)
+        if isinstance(u, dict) and u.get("k") == "Bin" and u.get("op") == "||":
+            return disj(u["lhs"]) + disj(u["rhs"])
+        return [u]
+    removed = 0
+    for B in [b for b in walk(body) if b.get("k") == "Block"]:
+        sts = B.get("s", [])
+        for idx, I in enumerate(list(sts)):
+            if not (isinstance(I, dict) and I.get("k") == "If" and I.get("else") is None and I.get("condvar") is None):
+                continue
+            flag = None
+            keys = {}
+            ok = True
+            for d in disj(I.get("cond")):
+                if isinstance(d, dict) and d.get("k") == "Un" and d.get("op") == "!" and gpath(d.get("e")):
+                    flag = gpath(d["e"])
+                elif isinstance(d, dict) and d.get("k") == "Bin" and d.get("op") == "!=":
+                    gl, gr = gpath(d.get("lhs")), gpath(d.get("rhs"))
+                    if gl and not gr:
+                        keys[gl] = d["rhs"]
+                    elif gr and not gl:
+                        keys[gr] = d["lhs"]
+                    else:
+                        ok = False
+                else:
+                    ok = False
+            if not ok or flag is None or not keys or any(k_[0] != flag[0] for k_ in keys):
+                continue
+            G = flag[0]
+            if global_users.get(G[2:], set()) - {f["key"]}:
+                continue            # someone else touches the object
+            stores = []
+            good = True
+            for t in ir.stmts(I.get("then")):
+                u = unwrap(t)
+                if isinstance(u, dict) and u.get("k") in ("Bin", "OpCall") and u.get("op") == "=":
+                    lhs = u.get("lhs") if u.get("k") == "Bin" else (u.get("args") or [None])[0]
+                    rhs = u.get("rhs") if u.get("k") == "Bin" else ((u.get("args") or [None, None])[1] if len(u.get("args", [])) > 1 else None)
+                    gp = gpath(lhs)
+                    if gp and gp[0] == G and rhs is not None:
+                        stores.append((gp, rhs))
+                        continue
+                if isinstance(t, dict) and t.get("k") == "Null":
+                    continue
+                good = False
+            if not good or not stores or stores[-1][0] != flag or ir.const_value(stores[-1][1]) not in (1, True):
+                continue
+            vals = {}
+            for gp, rhs in stores:
+                if gp == flag:
+                    if ir.const_value(rhs) not in (0, 1, True, False):
+                        good = False
+                elif gp in keys:
+                    if ir.show(ir.unwrap_all_casts(rhs)) != ir.show(ir.unwrap_all_casts(keys[gp])):
+                        good = False
+                else:
+                    vals[gp] = rhs
+            if not good or not vals or not all(k_ in [gp for gp, _ in stores] for k_ in keys):
+                continue
+            # the values are functions of the keys: every path they read is (part of) a key expression
+            key_txt = set(ir.show(ir.unwrap_all_casts(k_)) for k_ in keys.values())
+            for E in vals.values():
+                for x in walk(E):
+                    if x.get("k") in ("Call", "MCall", "OpCall", "Construct", "New"):
+                        good = False
+                    if x.get("k") in ("Ref", "Member", "This"):
+                        p_ = path(x)
+                        if p_ is None:
+                            continue
+                        # maximal paths only: a Ref below a Member is judged with the Member
+                        t_ = ir.show(x)
+                        if x.get("k") == "Ref" and x.get("d") == "enumconst":
+                            continue
+                        if not any(t_ == kt or kt.startswith(t_ + ".") or kt.startswith(t_ + "->") for kt in key_txt):
+                            good = False
+            if not good:
+                continue
+            # the flag starts out false
+            rec = None
+            for v in facts.vars:
+                if v.get("qn", "").split("::")[-1] == G[2:].split("::")[-1]:
+                    rec = facts.records.get((v.get("t") or "").replace("const ", ""))
+            fi = [f_ for f_ in (rec or {}).get("fields", []) if f_["n"] == flag[1]]
+            if not fi or fi[0].get("init") is None or ir.const_value(fi[0]["init"]) not in (0, False):
+                continue
+            # other mentions of the object: reads of the values after I, in B
+            inside = set(id(x) for x in walk(I))
+            bad = False
+            for n, parents in ir.walk_with_parents(body):
+                if id(n) in inside:
+                    continue
+                gp = gpath(n) if n.get("k") == "Member" else None
+                if gp and gp[0] == G:
+                    top = [p_ for p_ in parents if any(p_ is s_ for s_ in sts)]
+                    if gp not in vals or not top or sts.index(top[0]) <= idx:
+                        bad = True
+                    par = parents[-1] if parents else None
+                    if isinstance(par, dict) and par.get("k") == "Bin" and (par.get("op") or "").endswith("=") and par.get("op") not in ("==", "!=", "<=", ">=") and \
+                            unwrap(par.get("lhs")) is n:
+                        bad = True
+                elif n.get("k") == "Ref" and n.get("d") == "global" and ("g:" + (n.get("qn") or n.get("n") or "")).endswith(G[2:]) and \
+                        not (parents and parents[-1].get("k") == "Member"):
+                    bad = True          # the object as a whole (address taken, passed on)
+            # the key expressions are not written in the function
+            key_roots = set()
+            for k_ in keys.values():
+                for x in walk(k_):
+                    if x.get("k") in ("Ref", "Member") and path(x):
+                        key_roots.add(path(x)[0])
+            for n in walk(body):
+                for wp, how in node_writes(n, facts, {}):
+                    if wp and wp[0] in key_roots and not wp[0].startswith("g:"):
+                        bad = True
+            if bad:
+                continue
+
+            def rep(n):
+                if isinstance(n, list):
+                    return [rep(y) for y in n]
+                if not isinstance(n, dict):
+                    return n
+                if n.get("k") == "Member":
+                    gp = gpath(n)
+                    if gp in vals:
+                        return copy.deepcopy(vals[gp])
+                return {kk: (rep(v) if isinstance(v, (dict, list)) else v) for kk, v in n.items()}
+            B["s"] = sts[:idx] + [rep(s_) for s_ in sts[idx + 1:]]
+            removed += 1
+            break
+    return removed
+
+
 _SROA_COUNTER = [300000]
 
 
@@ -3658,6 +3810,14 @@ def normalise(facts, do_inline=True, do_propagate=True):
                         lst.remove(f)
     if do_propagate:
         memo = {}
+        # which functions mention which namespace-scope objects (for N6c)
+        global_users = {}
+        for f in facts.functions.values():
+            if f.get("body") is not None:
+                for n in walk(f["body"]):
+                    if n.get("k") == "Ref" and n.get("d") == "global" and not n.get("const"):
+                        global_users.setdefault(n.get("qn") or n.get("n"), set()).add(f["key"])
+                        global_users.setdefault((n.get("qn") or n.get("n") or "").split("::")[-1], set()).add(f["key"])
         for f in facts.functions.values():
             if f.get("body") is not None:
                 if f["body"] is f.get("body_raw"):
@@ -3669,6 +3829,7 @@ def normalise(facts, do_inline=True, do_propagate=True):
                 stats["optional_this"] = stats.get("optional_this", 0) + resolve_optional_this(f["body"])
                 stats["split_postinc"] = stats.get("split_postinc", 0) + split_postinc_deref(f["body"])
                 stats["memos_removed"] = stats.get("memos_removed", 0) + eliminate_local_memos(f["body"], facts, memo)
+                stats["memos_removed"] += eliminate_static_memos(f["body"], f, facts, global_users)
                 nb_ = eliminate_branch_memos(f["body"], facts, memo)
                 if nb_:
                     stats["memos_removed"] += nb_
